@@ -481,6 +481,9 @@ class Bucket(_MutableMappingMixin, _BucketBase):
         return (data, )
 
     def __setstate__(self, state):
+        if not isinstance(state, tuple) or not 1 <= len(state) <= 2:
+            # like the C implementation: (items,) or (items, next)
+            raise TypeError('state must be a tuple of one or two elements')
         if not isinstance(state[0], tuple):
             raise TypeError("tuple required for first state element")
 
@@ -729,6 +732,9 @@ class Set(_MutableSetMixin, _BucketBase):
         return (data, )
 
     def __setstate__(self, state):
+        if not isinstance(state, tuple) or not 1 <= len(state) <= 2:
+            # like the C implementation: (items,) or (items, next)
+            raise TypeError('state must be a tuple of one or two elements')
         if not isinstance(state[0], tuple):
             raise TypeError('tuple required for first state element')
 
